@@ -16,6 +16,9 @@ def run(ctx):
         "necessary clause behind 'does not fail when the start class is equivalent to other "
         "classes'; not validity or isomorphism of the outputs."
     )
+    from ..engines import bijplumb as B17E
+    B17E.b17_representatives_read_after_expansion(ctx)
+    ctx.floor("B17", 1)
     K = LK.Kinds(ctx.P)
     LK.k2_root_identity(ctx, K, modules=("bijection",), floor=1)
     LK.k2_spec_roots(ctx, K, modules=("bijection",))
@@ -34,6 +37,12 @@ def run(ctx):
     B.b8_two_sided_acceptance(ctx)
     # "isomorphic to each other" is judged by the matcher: it must read specifications the way they are built
     B.b7_equivalence_steps(ctx)
+    B.b18_first_complete_matching_ends_the_backtracking(ctx)
+    ctx.floor("B18", 1)
+    # the specifications the finder builds go through the extractor: every class on a right-hand side gets a rule
+    from ..engines import closure as G3E
+    G3E.g3_equivalence_paths(ctx)
+    ctx.floor("G3", 2)
     ctx.floor("B7", 6)
     B.b10_expansion_until_spec(ctx)
     B.b11_paths_same_length(ctx)
